@@ -44,6 +44,9 @@ def subjects(tier):
     ]
     out.append(('three_choices', dict(starts=['a'], nodes=['x0', 'x1', 'y0', 'y1', 'z0', 'z1'], edges=[], incompat=[],
                                       choices=[['X0', 'a', ['x0', 'x1']], ['X1', 'a', ['y0', 'y1']], ['X2', 'a', ['z0', 'z1']]])))
+    out.append(('four_choices_constrained', dict(starts=['a'], nodes=['x0', 'x1', 'y0', 'y1', 'z0', 'z1', 'w0', 'w1'], edges=[], incompat=[],
+                                                 choices=[['X0', 'a', ['x0', 'x1']], ['X1', 'a', ['y0', 'y1']], ['X2', 'a', ['z0', 'z1']],
+                                                          ['X3', 'a', ['w0', 'w1']]], cc=[['LINKED', ['X0', 'X1']]])))
     sp = S('one')
     sp['dv'] = {'D1': dict(anchor='o1', options=2), 'D2': dict(anchor='a', bounds=[0.0, 1.0])}
     sp['met'] = {'M1': dict(anchor='a', dir=-1, ref=None, type=None)}
@@ -92,7 +95,7 @@ def run_case(case):
         feats['grouping_subject'] = 1
     res['nontrivial'] = len(spec.get('choices', [])) >= 2 or bool(spec.get('cch'))
 
-    b = vbuild.build(spec, constrain=False)
+    b = vbuild.build(spec, constrain=bool(spec.get('cc')) and case['name'].endswith('_constrained'))
     g0 = b.dsg
     # the processors decode from an equal but separate initial graph object? No: from g0 itself (it must not change)
     procs = {}
@@ -124,6 +127,12 @@ def run_case(case):
                                 (lambda c=c, es=es: g.get_for_apply_connection_choice(c, es))))
         # constrain choices on a copy (only where it is allowed: unconstrained selection choices present)
         sel = sorted([n for n in g.graph.nodes if isinstance(n, SelectionChoiceNode)], key=b.name)
+        if g.get_choice_constraints():
+            # a graph that ALREADY holds a constraint: a second one over two still unconstrained choices, on a copy
+            free = [c for c in sel if g.is_constrained_choice(c) is None]
+            if len(free) >= 2 and len({len(g.get_option_nodes(c)) for c in free[:2]}) == 1:
+                out.append((('constrain', 'second', 'LINKED'),
+                            (lambda free=free: g.copy().constrain_choices(ChoiceConstraintType.LINKED, free[:2]))))
         if len(sel) >= 2 and not g.get_choice_constraints() and \
                 len({len(g.get_option_nodes(c)) for c in sel[:2]}) == 1:
             for ct in ('LINKED', 'PERMUTATION'):
